@@ -1173,7 +1173,7 @@ def _oauth_signature(
     """
     parts = urllib.parse.urlparse(url)
     scheme, netloc, path = parts[:3]
-    normalized_url = scheme.lower() + "://" + netloc.lower() + path
+    normalized_url = scheme.lower() + "://" + _oauth_normalize_netloc(scheme, netloc) + path
 
     base_elems = []
     base_elems.append(method.upper())
@@ -1210,7 +1210,7 @@ def _oauth10a_signature(
     """
     parts = urllib.parse.urlparse(url)
     scheme, netloc, path = parts[:3]
-    normalized_url = scheme.lower() + "://" + netloc.lower() + path
+    normalized_url = scheme.lower() + "://" + _oauth_normalize_netloc(scheme, netloc) + path
 
     base_elems = []
     base_elems.append(method.upper())
@@ -1234,6 +1234,15 @@ def _oauth10a_signature(
 
     hash = hmac.new(key, escape.utf8(base_string), hashlib.sha1)
     return binascii.b2a_base64(hash.digest())[:-1]
+
+
+def _oauth_normalize_netloc(scheme: str, netloc: str) -> str:
+    # The signature base string omits the scheme's default port (RFC 5849 3.4.1.2)
+    netloc = netloc.lower()
+    default_port = {"http": ":80", "https": ":443"}.get(scheme.lower())
+    if default_port and netloc.endswith(default_port):
+        netloc = netloc[: -len(default_port)]
+    return netloc
 
 
 def _oauth_escape(val: str | bytes) -> str:
